@@ -37,6 +37,8 @@ class LtlPastifier(LtlAstVisitor):
     def __init__(self):
         self.subformula_horizons = dict()
         self.ast = None
+        # duration of one sample (the step of next), in the unit the horizons are expressed in
+        self.sample_step = 1
 
     def pastify(self, ast):
         self.ast = ast
